@@ -1400,6 +1400,15 @@ package moss
 //@   ensures @totals r1 == nil ==> ptrOf(r0, "*segment").totOperationSet == sloc.TotOpsSet && ptrOf(r0, "*segment").totOperationDel == sloc.TotOpsDel &&
 //@       ptrOf(r0, "*segment").totKeyByte == sloc.TotKeyByte && ptrOf(r0, "*segment").totValByte == sloc.TotValByte
 
+// The heap iterator may be replaced by a cheaper one only when a single
+// source (one segment, or only the lower level) has entries in the range at
+// all; sources used up while skipping a leading deletion still count (S26).
+//@ func (iter *iterator) optimize() (Iterator, error)
+//@   props C09 C01
+//@   attr obligations ensures
+//@   requires iter != nil && iter.ss != nil
+//@   ensures @oneSource r1 == nil && (r0 != ifaceOf(iter) ==> iter.numSources == 1)
+
 // ---- heap iterator: reading the entry on top (C08, C09) --------------------------------------------------------------
 
 //@ pure opaque func curAt(it *iterator, i int) *cursor = it.cursors[i]
